@@ -604,9 +604,54 @@ class Fn:
             return 'SBreak'
         if k == 'ContinueStmt':
             return 'SContinue'
-        if k in ('SwitchStmt', 'GotoStmt', 'LabelStmt', 'CaseStmt', 'DefaultStmt'):
+        if k == 'SwitchStmt':
+            return self.switch(n)
+        if k in ('GotoStmt', 'LabelStmt', 'CaseStmt', 'DefaultStmt'):
             raise Unsupported('statement %s' % k)
         return '(SExpr %s)' % self.rv(n)
+
+    def const_int(self, n):
+        """value of an integer constant expression (case labels)"""
+        k = n.get('kind')
+        if 'value' in n and k in ('ConstantExpr', 'IntegerLiteral', 'CharacterLiteral'):
+            return int(n['value'])
+        if k in ('ParenExpr', 'ImplicitCastExpr', 'CStyleCastExpr', 'ConstantExpr'):
+            return self.const_int(n['inner'][0])
+        if k == 'UnaryOperator' and n['opcode'] in ('-', '~', '+'):
+            v = self.const_int(n['inner'][0])
+            return {'-': -v, '~': ~v, '+': v}[n['opcode']]
+        if k == 'BinaryOperator' and n['opcode'] in ('+', '-', '*', '&', '|', '^', '<<', '>>'):
+            a, b = self.const_int(n['inner'][0]), self.const_int(n['inner'][1])
+            return {'+': a + b, '-': a - b, '*': a * b, '&': a & b, '|': a | b, '^': a ^ b, '<<': a << b, '>>': a >> b}[n['opcode']]
+        raise Unsupported('case label that is not a simple constant (%s)' % k)
+
+    def switch(self, n):
+        parts = [c for c in n['inner'] if c]
+        cond, body = parts[0], parts[-1]
+        if body.get('kind') != 'CompoundStmt':
+            raise Unsupported('switch whose body is not a block')
+        segs = []       # [labels, [statements]]
+        for c in body.get('inner', []):
+            labs = []
+            while c.get('kind') in ('CaseStmt', 'DefaultStmt'):
+                if c['kind'] == 'CaseStmt':
+                    if len(c['inner']) != 2:
+                        raise Unsupported('case range')
+                    labs.append('(Some %s)' % Z(self.const_int(c['inner'][0])))
+                    c = c['inner'][1]
+                else:
+                    labs.append('None')
+                    c = c['inner'][0]
+            if labs:
+                segs.append([labs, [c]])
+            elif segs:
+                segs[-1][1].append(c)
+            elif c.get('kind') == 'DeclStmt':
+                raise Unsupported('declaration before the first case of a switch')
+        out = []
+        for labs, sts in segs:
+            out.append('([%s], %s)' % ('; '.join(labs), self.seq([self.st(x) for x in sts])))
+        return '(SSwitch %s [%s])' % (self.rv(cond), '; '.join(out))
 
     def translate(self):
         body = None
